@@ -58,7 +58,9 @@ class Contract:
         self.max_paths = kw.pop("max_paths", 4000)
         self.note = kw.pop("note", "")
         self.assume_entry = _lst(kw.pop("assume_entry", []))   # extra entry assumptions (listed in evidence)
-        self.assume_on_close = _lst(kw.pop("assume_on_close", []))   # protocol facts that hold whenever GeneratorExit arrives
+        self.assume_on_close = _lst(kw.pop("assume_on_close", []))
+        # protocol facts assumed whenever the function is resumed by an interrupt (`sig`) -- listed as assumptions
+        self.assume_on_wakeup = _lst(kw.pop("assume_on_wakeup", []))   # protocol facts that hold whenever GeneratorExit arrives
         self.assume_all = _lst(kw.pop("assume_all", []))       # invariants ('Class.name') assumed for *all* objects at entry
         self.self_cls = kw.pop("self_cls", None)
         self.step = kw.pop("step", None)             # async generator: per-step contract
